@@ -120,7 +120,7 @@ def run(ctx: Ctx) -> Result:
     # busy seconds around the integer constants of the module (and, thorough, around 2^16 and 10^5)
     if ctx.replay is None:
         consts = sorted(set(source_constants() + ([65536, 100000] if ctx.thorough else [])))
-        v = busy_violation(consts, res)
+        v = busy_violation(consts, res) or jump_violation(source_constants(), res, 7 if ctx.thorough else 6)
         res.add_case({'busy_seconds_around': consts})
         res.count('busy_second_scripts', 7 * 2 * len(consts))
         if v is not None:
@@ -431,6 +431,25 @@ def busy_seconds(consts):
         yield [[1000, n + 2], [1001, n + 2], [1000, 3], [1002, 1]]
 
 
+def jump_violation(consts, res, maxlen):
+    """every clock step sequence up to `maxlen` over {-(N+1), -1, 0, +1, +(N+1)} for each integer constant N of the module: the
+    clock jumping further than any distance the code compares against, there and back, with busy and quiet seconds"""
+    for n in consts:
+        if n < 3:
+            continue
+        for k in range(2, maxlen + 1):
+            for steps in itertools.product((0, -(n + 1), n + 1, 1, -1), repeat=k):
+                if (n + 1) not in steps and -(n + 1) not in steps:
+                    continue
+                r = steps_to_readings(10 * (n + 1), steps)
+                ids = impl_ids('j', r)
+                res.evaluations += 1
+                if not oracle(ids):
+                    dup = sorted({i for i in ids if ids.count(i) > 1})
+                    return Violation('duplicate-id', f"identifier {dup[0]!r} issued twice under clock {r}", {'urn': 'j', 'readings': r, 'ids': ids})
+    return None
+
+
 def busy_violation(consts, res):
     for rle in busy_seconds(consts):
         for urn in ('s', None):
@@ -452,7 +471,7 @@ def search(ctx: Ctx) -> Result:
     """failing-input search on the real code alone: busy seconds around every integer constant of the module and around
     2^16 / 10^5, then all step sequences over {-2..2} up to length 8."""
     res = Result()
-    v = busy_violation(sorted(set(source_constants() + [65536, 100000])), res)
+    v = busy_violation(sorted(set(source_constants() + [65536, 100000])), res) or jump_violation(source_constants(), res, 8)
     if v is not None:
         res.violations.append(v)
         return res
